@@ -18,7 +18,7 @@ CHECKS = {
  "C12": ("StreamLab", "PBT: independent recount of generated normalised streams vs Summarize counters, getters and the parsed-back summary text, with and without Repeat",
          "Counters, scenario classification, replay-insensitivity and the single summary write compared with an independent recount for generated streams covering every outcome path. Known findings D2/D5 excluded by construction and counted.",
          "Aborted retry chains unconstrained (reading R2).", "6/C12"),
- "C14": ("StreamLab", "PBT with parse-back: output of Normalize<Basic|Libtest|Json|JUnit> for generated streams is parsed by hand-written line / RFC 8259 JSON / XML 1.0 parsers into fact multisets and compared with the stream's facts in both directions; well-formedness, started/result pairing and suite totals checked",
+ "C14": ("StreamLab", "PBT with parse-back: output of Normalize<Basic|Libtest|Json|JUnit> for generated streams (Basic with colours off and, rendered through a VT interpreter, with colours on) is parsed by hand-written line / RFC 8259 JSON / XML 1.0 parsers into fact multisets and compared with the stream's facts in both directions; well-formedness, started/result pairing and suite totals checked",
          "Every executed step, failed hook and parser error appears exactly once with the right status and message, nothing else appears, documents are well-formed and totals agree with entries, for generated streams with decorated names, path-less features, same-named scenarios, retries, hook failures and reporter options. Known finding D7 (JUnit drops the output of skipped testcases) is reported as KNOWN-FINDING.",
          "Message identity is checked through generated unique tokens; libtest totals follow reading R4.", "6/C14"),
  "C13": ("StreamLab", "PBT with a reference interpreter of 18 compiled writer nestings (FailOnSkipped/Repeat/Tee/Or/discard) over recorder leaves; arbitrary (also non-contract) streams; stats algebra checked with arbitrary leaf stats",
@@ -30,10 +30,10 @@ CHECKS = {
  "C03": ("RunnerLab", "PBT with validity predicate over the whole event stream (framing / bracket nesting / ParsingFinished counts) under generated parser behaviours and schedules; exhaustive schedules of small cases",
          "Validity predicate over the full stream for generated feature sets (empty features/rules, parser errors, lazy delivery, retries, fail-fast) under harness-chosen completion orders.",
          "ParsingFinished.steps compared with scenario steps only (reading R3).", "6/C03"),
- "C04": ("RunnerLab", "PBT over lazy parser streams (items behind gates released at harness-chosen quiescent points) with set-equality oracle and bounded-progress termination criteria (H1 idle-turn hook, stall detection)",
+ "C04": ("RunnerLab", "PBT over lazy parser streams (items behind gates released at harness-chosen quiescent points) with set-equality oracle, bounded-progress termination criteria (H1 idle-turn hook, stall detection) and a resumption invariant (every future whose gate the schedule opened has been polled again before the runner goes quiet)",
          "Started set == supplied set, and termination judged by logical criteria (idle-turn hook, stall with nothing pending) over generated parser delays, retry delays and schedules. Liveness is checked as bounded progress only.",
          "Termination = bounded progress; H1 hook limit 10000 idle turns per poll.", "6/C04"),
- "C05": ("RunnerLab", "PBT with chain model over per-attempt outcome sequences (budget from tags/CLI/builder/closure), sound lower bound on retry delay from harness clock",
+ "C05": ("RunnerLab", "PBT with chain model over per-attempt outcome sequences (budget from tags/CLI/builder/closure), sound lower bound on retry delay from harness clock; clock-free stall check (woken callbacks of other attempts are resumed while a retry delay is outstanding)",
          "Retry chains (count, counters, exactly-on-failure, sequential, delay lower bound) checked against the reference model for generated budgets, failure positions and schedules.",
          "Delay is asserted as a lower bound with real 1-4 ms sleeps.", "6/C05"),
  "C06": ("RunnerLab", "PBT with prefix invariant (in-flight <= limit in stream and in callback log) and refill predicate at harness quiescent points; exhaustive completion orders of small cases",
@@ -48,7 +48,7 @@ CHECKS = {
  "C09": ("RunnerLab", "PBT with invariants over World-instance groups of the callback log (instance ids, mutation counters, hook arguments, ScenarioFinished reason) joined with the attempt model",
          "World identity / state threading / hook contract checked from an instrumented World and hooks for generated shapes, failures in hooks and World::new, interleaved attempts.",
          "Attribution of background-step callbacks through World ids.", "6/C09"),
- "C10": ("RunnerLab", "fault-injection PBT: panics with String/&str/custom/i32 payloads and World::new errors at generated positions; token accounting + panic-hook probe",
+ "C10": ("RunnerLab", "fault-injection PBT: panics with String/&str/custom/i32 payloads (inside the future or synchronously before it is returned, also in World::new) and World::new errors at generated positions; token accounting + panic-hook probe",
          "Every injected fault is reported exactly once with its payload, attempts complete, nothing escapes the stream, the panic hook is silent during and restored after the run.",
          "'prints nothing' is observed through a probe panic hook, not by capturing stderr.", "6/C10"),
  "C15": ("FuncLab", "PBT with reference evaluator: generated tagged feature sets x (--name regex, --tags AST, closure) presence combinations through Cucumber::custom(VecParser, RecordingRunner).filter_run; expected feature list computed independently and compared with gherkin::Feature equality; TagOperation::eval and the textual tag-expression parser vs a reference boolean evaluator",
@@ -63,7 +63,7 @@ CHECKS = {
  "C18": ("FuncLab+RunnerLab", "exhaustive enumeration of the 28 800-case tag x CLI product plus PBT over random tags / durations / filter ASTs against a reference resolver; CLI-over-builder merge observed on real runs (tags mode) through the C05/C06/C08 oracles",
          "parse_from_tags equals the documented resolution on the complete product of tag forms, placements and CLI values and on random cases; merge of CLI and builder values is observed on generated real runs.",
          "Undocumented retry-prefixed tags only must not panic (R7).", "6/C18"),
- "C19": ("FuncLab", "PBT over step texts against a compiled zoo of 30 attribute/function pairs with hand-written reference matchers and argument decoders; inventory counted per keyword",
+ "C19": ("FuncLab", "PBT over step texts against a compiled zoo of 33 attribute/function pairs with hand-written reference matchers and argument decoders; inventory counted per keyword",
          "Registration (count per keyword, reachability), literal / regex / expr matching as written, typed argument delivery in declaration order, slices, #[step] argument, custom Parameters, and failure on parse errors / returned Err hold for the zoo over generated and mutated texts.",
          "The quantifier over programs is a fixed representative zoo (macro expansion is compile time).", "6/C19"),
  "C20": ("vtrace", "PBT with token accounting: generated RunnerLab cases whose callbacks emit uniquely tokenised tracing events before and after gate awaits; real Cucumber::run with init_tracing() polled by hand in one child process per case under harness-chosen schedules",
@@ -82,7 +82,7 @@ def entry(pid):
         "engine": eng,
         "level_claimed": {"category": "exploration", "text": text, "design_ref": f"DESIGN.md section {ref}"},
         "level_note": note,
-        "technique": tech,
+        "technique": tech + ("" if pid == "C20" else "; thorough tier adds a coverage-guided libFuzzer campaign (cargo-fuzz, 8 jobs x 40000 runs) over the same tape decoders and oracles, corpus seeded with the stored regression inputs"),
     }
 
 all_ids = [f"C{i:02d}" for i in range(1, 21)]
@@ -104,7 +104,7 @@ manifest = {
     ],
     "checks": [entry(p) for p in all_ids if p in CHECKS],
     "not_applicable": [{"property_id": p, "reason": "check not built yet in this revision of /verif (planned, see DESIGN.md section 6)"} for p in all_ids if p not in CHECKS],
-    "notes": "All checks: ./check <ID> quick|thorough ; exit 0 held / 1 VIOLATION / 2 harness error or inconclusive. Known findings: /verif/known_findings.json.",
+    "notes": "All checks: ./check <ID> quick|thorough ; exit 0 held / 1 VIOLATION / 2 harness error or inconclusive. Known findings: /verif/known_findings.json. fix: commits in /repo: 206d04b 547dd40 fb649a0 8922cb4 611e938 2cff8d7 (DESIGN.md section 8).",
 }
 json.dump(manifest, open("/verif/MANIFEST.json", "w"), indent=1)
 print("wrote MANIFEST.json with", len(manifest["checks"]), "checks")
